@@ -189,13 +189,41 @@ Definition spec_obs (c : case) (o : iobs) : obs :=
 
 (* the objects that exist when the binding is enabled are known from the initial list on
    ([P_start]; without such objects it is [P]); the event list is the DECLARED one ([P_decl]) *)
+(* the filterResult shown for the delivered object (in the snapshot's entry, else in the fired
+   event), judged against the oracle's outputs by the specification's clause [fr_shows]: on
+   every delivery on whose object the filter does not fail.  (A Deleted that fires nothing
+   shows no filterResult.) *)
+Definition fr_step_ok (c : case) (s : dstep) (o : iobs) : bool :=
+  match s with
+  | (t, _, d) =>
+      let a := jq_of c (unwrap d) in
+      if snd a then true
+      else match i_fr o with
+           | Some fr => fr_shows (fst a) fr
+           | None => match t with Deleted => true | _ => false end
+           end
+  end.
+
+Fixpoint fr_steps_ok (c : case) (h : list dstep) (os : list iobs) : bool :=
+  match h, os with
+  | s :: h', o :: os' => fr_step_ok c s o && fr_steps_ok c h' os'
+  | _, _ => true
+  end.
+
+Definition fr_case_ok (c : case) : bool :=
+  negb (k_filter c) || fr_steps_ok c (steps_of c) (k_obs c).
+
 Definition P_case (c : case) : bool :=
   P_decl (jq_of c) (decl_of c) (k_filter c) (listed_of c) (changes_of c)
-         (map (spec_obs c) (k_obs c)).
+         (map (spec_obs c) (k_obs c))
+  && fr_case_ok c.
 
 Definition spec_violations (cs : list case) : list N := indices_where (fun c => negb (P_case c)) cs.
 
+(* F8 as narrow as it is ([T_F8m]: two differing results of the history merge into the same
+   object; C08_F8m_narrower: only where [T_F8] holds; C08_partial_merge_declared: P holds for
+   the model on every history outside it) *)
 Definition trigger_F8 (cs : list case) : list N :=
-  indices_where (fun c => T_F8 (jq_of c) (k_filter c) (listed_steps (listed_of c) ++ changes_of c)) cs.
+  indices_where (fun c => T_F8m (jq_of c) (k_filter c) (listed_steps (listed_of c) ++ changes_of c)) cs.
 Definition trigger_F16 (cs : list case) : list N :=
   indices_where (fun c => T_F16 (jq_of c) (k_filter c) (listed_steps (listed_of c) ++ changes_of c)) cs.
